@@ -73,6 +73,12 @@ def periodsWF (ps : Array ZI) : Bool :=
     | some a, some b => a.e == b.s && isValid a.e
     | _, _ => false)
 
+/-- data check for zones without a recurring tail: together with `periodsWF` it yields the hypotheses of the
+    local-mapping theorems (proved in PyodaProofs.C04Spec) -/
+def dataOK (p : Precalc) : Bool :=
+  periodsWF p.periods && p.tail.isNone && (p.tailStart == AMAX) &&
+  p.periods.all (fun z => decide (MINI ≤ z.s → z.e ≤ MAXI → z.e - z.s ≥ 2 * (64800 * NPS)))
+
 def maximal (ps : Array ZI) : Bool :=
   (List.range (ps.size - 1)).all (fun i =>
     match ps[i]?, ps[i+1]? with
@@ -114,7 +120,7 @@ def step (reg : Registry) (toks : List String) : Option (Registry × String) :=
     match d with
     | .fixed z => some (reg, s!"fixed {z.wall}")
     | .precalc p =>
-      some (reg, s!"{showBool p.validate} {showBool (periodsWF p.periods)} {showBool (maximal p.periods)} {minLen p.periods} {p.minOffset} {p.maxOffset}")
+      some (reg, s!"{showBool p.validate} {showBool (periodsWF p.periods)} {showBool (maximal p.periods)} {minLen p.periods} {p.minOffset} {p.maxOffset} {showBool (dataOK p)}")
   | ["zone.safeplus", t, off] => do
     let t ← parseInt? t; let off ← parseInt? off
     some (reg, s!"{safePlus t (off * NPS)} {safeMinus t (off * NPS)}")
